@@ -32,14 +32,9 @@ def _tier(tier):
     return dict(mc="Registry_crash_thorough.cfg", mc_stop=1500, sim=("Registry_crash_sim.cfg", 2500, 55), chains=400, double=12)
 
 
-def _attack(item):
-    cfg, desc, mode = item
-    return cfg, desc, mode, vlib.tlc(MODULE, cfg, workers=2, timeout=900)
-
-
 def _attacks():
     with concurrent.futures.ThreadPoolExecutor(max_workers=3) as ex:
-        return list(ex.map(_attack, ATTACKS))
+        return list(zip(ATTACKS, ex.map(base.attack_trace, [a[0] for a in ATTACKS])))
 
 
 def run(tier, seed):
@@ -53,18 +48,15 @@ def run(tier, seed):
     results = []
 
     with concurrent.futures.ThreadPoolExecutor(max_workers=4) as ex:
-        f_mc = ex.submit(vlib.tlc, MODULE, T["mc"], None, 8, T["mc_stop"] + 600, T["mc_stop"])
+        f_mc = ex.submit(base.tlc_retry, T["mc"], workers=8, timeout=T["mc_stop"] + 600, stop_after=T["mc_stop"])
         f_sim = ex.submit(base.simulate, T["sim"][0], T["sim"][1], T["sim"][2], seed, "crashsim")
         f_att = ex.submit(_attacks)
         by_mode = {"crash": [], "replay": []}
-        for cfg, desc, mode, ra in f_att.result():
-            if ra.error:
-                raise vlib.MachineryError("config %s: %s" % (cfg, ra.error))
-            if not ra.violation:
+        for (cfg, desc, mode), steps in f_att.result():
+            if not steps:
                 log("[C12] config %s produced no counterexample (not counted)" % cfg)
                 continue
-            by_mode[mode].append(vlib.trace_behaviour(ra.trace, "attack-" + cfg.replace(".cfg", "").split("_")[-1],
-                                                      "attack:" + desc, state_vars=SV))
+            by_mode[mode].append({"id": "attack-" + cfg.replace(".cfg", "").split("_")[-1], "kind": "attack:" + desc, "steps": steps})
         cov["attack_traces"] = len(by_mode["crash"]) + len(by_mode["replay"])
         log("[C12] +%.0fs attack traces" % (time.time() - t0))
         rs, sbehs = f_sim.result()
@@ -105,6 +97,11 @@ def run(tier, seed):
             (time.time() - t0, res_f["counters"].get("chains", 0), res_f["counters"].get("clean_ops", 0),
              res_f["counters"].get("fault_points", 0), res_f["counters"].get("double_fault_runs", 0), res_f["counters"].get("violations", 0)))
 
+        failed = res_c["counters"].get("clean_run_failed", 0) + res_f["counters"].get("clean_run_failed", 0)
+        if res_f["counters"].get("fault_points", 0) == 0 or failed > (res_c["behaviours"] + res_f["behaviours"]) // 2:
+            raise vlib.MachineryError("the real handler cannot process the generated chains without faults (%d clean runs failed, e.g. %s): "
+                                      "there is no uninterrupted run to compare with - see ./check C11" %
+                                      (failed, json.dumps((res_c["divergences"] + res_f["divergences"])[:1])[:600]))
         r = f_mc.result()
         if not vlib.expect_tlc_ok(r, T["mc"]):
             raise vlib.MachineryError("faithful crash sub-spec violates %s (model error, not a verdict):\n%s" %
